@@ -228,7 +228,19 @@ def masks(draw, k, densities=None):
 @st.composite
 def messages(draw, max_len=64, min_len=0):
     shape = draw(st.sampled_from(["random", "random", "random", "random", "random", "random", "random", "random",
-                                  "random", "zeros", "leading_zeros", "single_one", "ones", "empty", "tiny"]))
+                                  "random", "zeros", "leading_zeros", "single_one", "ones", "empty", "tiny",
+                                  "decimal_round", "decimal_round"]))
+    if shape == "decimal_round":
+        # values that are round in DECIMAL (m * 10^j + r, 6^a * 10^b): coincidences of the decimal string arithmetic
+        m = draw(st.one_of(st.integers(1, 999), st.sampled_from([2, 3, 5, 6, 8, 25, 125, 6 ** 5, 6 ** 20, 3 ** 30])))
+        j = draw(st.one_of(st.integers(1, 60), st.sampled_from([9, 10, 18, 19, 21, 27, 40])))
+        value = m * 10 ** j + draw(st.sampled_from([0, 0, 0, 1, 2, 7]))
+        text = format(value, "b")
+        if len(text) > max_len:
+            text = format(m * 10 ** max(1, int(max_len * 0.30103) - len(str(m)) - 1), "b")[:max_len]
+        if len(text) < min_len:
+            text = text.zfill(min_len)
+        return "0" * draw(st.sampled_from([0, 0, 1, 3])) + text if len(text) + 3 <= max_len else text
     if shape == "empty" and min_len == 0:
         return ""
     if shape == "tiny":
@@ -324,7 +336,7 @@ def edits(draw, s, count, alphabet="ACGT"):
     return out
 
 
-FOREIGN = "acgtNn-U0 1é中\n\t\r\x00"
+FOREIGN = "acgtNn-U0 1é中\n\t\r\x00\uff21\uff23\uff27\uff34\U0001d400\u24b6\u1d2c"  # incl. full-width / compatibility forms of A C G T
 
 
 @st.composite
@@ -382,14 +394,14 @@ def build_local_filter(cfg):
 @st.composite
 def user_filter_cfgs(draw, k):
     """User-defined window predicates written to the documented interface valid(self, dna_string)."""
-    kind = draw(st.sampled_from(["set", "regional_gc", "forbidden", "purine"]))
-    if kind == "set":
+    kind = draw(st.sampled_from(["set", "regional_gc", "forbidden", "purine", "table"]))
+    if kind in ("set", "table"):
         density = draw(st.sampled_from([0.15, 0.3, 0.5, 0.7, 0.9]))
         rng = random.Random(draw(st.integers(0, 2 ** 32 - 1)))
         members = [v for v in range(4 ** k) if rng.random() < density]
         if not members:
             members = [rng.randrange(4 ** k)]
-        return {"kind": "set", "k": k, "members": members}
+        return {"kind": kind, "k": k, "members": members}
     if kind == "regional_gc":
         return {"kind": "regional_gc", "k": k, "window": draw(st.integers(1, k)),
                 "bias": draw(st.sampled_from(["0", "0.1", "0.2", "0.25", "0.3", "0.5"]))}
@@ -402,7 +414,7 @@ def user_filter_cfgs(draw, k):
 def user_predicate(cfg):
     """Independent evaluation of a user-defined filter on a k-mer / window (the drawn rule itself)."""
     kind = cfg["kind"]
-    if kind == "set":
+    if kind in ("set", "table"):
         members = set(cfg["members"])
         return lambda s: o.index(s) in members
     if kind == "regional_gc":
@@ -425,9 +437,35 @@ def user_predicate(cfg):
     return lambda s: s.count("A") + s.count("G") <= cfg["max"]
 
 
+_TABLE_FILTER = []
+
+
+def table_filter_class():
+    """A user filter class defined ONCE (module level, as a user would) whose state is a numpy lookup table."""
+    if not _TABLE_FILTER:
+        from pbt.core import import_dsw
+        dsw = import_dsw()
+
+        class LookupTableFilter(dsw.DefaultBioFilter):
+            def __init__(self, observed_length, accepted):
+                import numpy
+                super().__init__(screen_name="lookup table")
+                self.observed_length = observed_length
+                self.table = numpy.zeros(4 ** observed_length, dtype=bool)
+                self.table[sorted(accepted)] = True
+
+            def valid(self, dna_string):
+                return bool(self.table[o.index(dna_string)])
+
+        _TABLE_FILTER.append(LookupTableFilter)
+    return _TABLE_FILTER[0]
+
+
 def build_user_filter(cfg):
     from pbt.core import import_dsw
     dsw = import_dsw()
+    if cfg["kind"] == "table":
+        return table_filter_class()(cfg["k"], cfg["members"])
     predicate = user_predicate(cfg)
 
     class UserFilter(dsw.DefaultBioFilter):
